@@ -1486,6 +1486,85 @@ def install_numpy_models(interp):
     register_model(np.argpartition, lambda interp, a, kth, *r, **k: n_argsort(interp, a))
     register_model(np.sort, lambda interp, a, *r, **k: to_obj_array(a).reshape(-1)[n_argsort(interp, a)])
 
+    def _lam(body_fn):
+        j = z3.Int(f"j!lam{ctx.PATH.fresh_ctr if ctx.PATH else 0}")
+        if ctx.PATH is not None:
+            ctx.PATH.fresh_ctr += 1
+        return z3.Lambda([j], body_fn(j))
+
+    def _elt(seq, jt):
+        """z3 term of element j (z3 int term) of a SymSeq / list / ndarray part"""
+        if isinstance(seq, SymSeq):
+            return z3.Select(seq.arr, as_int_term(lift(seq.offset)) + jt)
+        items = list(seq)
+        t = real_const(0)
+        for i in reversed(range(len(items))):
+            t = z3.If(jt == i, as_real_term(lift(items[i])), t)
+        return t
+
+    def n_insert(interp, arr, pos, val, axis=None):
+        if not isinstance(arr, SymSeq):
+            A = to_obj_array(arr)
+            p = concrete_value(pos) if is_sym(pos) else pos
+            if p is None:
+                raise Unsupported("np.insert at a symbolic position into a concrete array")
+            return np.insert(A, p, val)
+        n = arr.length
+        p = lift(pos)
+        pt = as_int_term(If(compare(p, 0, "<"), add(n, p), p)) if True else None
+        vt = as_real_term(lift(val)) if arr.kind == "r" else as_int_term(lift(val))
+        off = as_int_term(lift(arr.offset))
+        new = _lam(lambda j: z3.If(j < pt, z3.Select(arr.arr, off + j), z3.If(j == pt, vt, z3.Select(arr.arr, off + j - 1))))
+        return SymSeq(new, add(n, 1), arr.kind, 0, arr.name)
+    register_model(np.insert, n_insert)
+
+    def n_concatenate(interp, parts, axis=0, **kw):
+        parts = list(parts)
+        if not any(isinstance(p_, SymSeq) for p_ in parts):
+            return np.concatenate([to_obj_array(p_) if contains_sym(p_) else p_ for p_ in parts])
+        lens = [p_.length if isinstance(p_, SymSeq) else len(p_) for p_ in parts]
+        starts = [0]
+        for l in lens:
+            starts.append(add(starts[-1], l))
+
+        def body(j):
+            t = real_const(0)
+            for p_, st_ in reversed(list(zip(parts, starts))):
+                stt = as_int_term(lift(st_))
+                t = z3.If(j >= stt, _elt(p_, j - stt), t)
+            return t
+        return SymSeq(_lam(body), starts[-1], "r", 0, "concat")
+    register_model(np.concatenate, n_concatenate)
+
+    def n_append(interp, arr, vals, axis=None):
+        if isinstance(arr, SymSeq):
+            v = list(interp.iterate(vals)) if isinstance(vals, (list, tuple, np.ndarray)) else [vals]
+            return n_concatenate(interp, [arr, v])
+        return np.append(to_obj_array(arr), to_obj_array(vals) if isinstance(vals, (list, tuple, np.ndarray)) else vals)
+    register_model(np.append, n_append)
+
+    def n_argext(pick):
+        def f(interp, a, axis=None, **kw):
+            items = list(to_obj_array(a).reshape(-1).tolist())
+            if not items:
+                raise PyRaise("ValueError", "attempt to get argmin/argmax of an empty sequence")
+            best = 0
+            for i in range(1, len(items)):      # first occurrence of the extreme value, as numpy
+                if interp.truth(compare(items[i], items[best], "<" if pick == "min" else ">")):
+                    best = i
+            return best
+        return f
+    register_model(np.argmin, n_argext("min"))
+    register_model(np.argmax, n_argext("max"))
+
+    def n_array_equal(interp, a, b, **kw):
+        A, B_ = to_obj_array(a), to_obj_array(b)
+        if A.shape != B_.shape:
+            return False
+        return interp.truth(And(*[Eq(x, y) for x, y in zip(A.reshape(-1).tolist(), B_.reshape(-1).tolist())]) if A.size else True)
+    register_model(np.array_equal, n_array_equal)
+    register_model(np.copy, lambda interp, a, **kw: a if is_sym(a) else to_obj_array(a).copy())
+
     def n_isscalar(interp, x):
         return is_sym(x) or np.isscalar(x)
     register_model(np.isscalar, _always(n_isscalar))
